@@ -209,6 +209,29 @@ Theorem C14_lease_set_parsed_value_parses_back : forall d l, wf d -> read_lease_
   exists b r, lease_set_bytes l = Ok b /\ b ++ r = d /\ read_lease_set b = Ok l.
 Proof. exact read_lease_set_strip. Qed.
 Print Assumptions C14_lease_set_parsed_value_parses_back.
+(* LeaseSet (version 1) assembled from parts — destination || 256-byte ElGamal key || signing key of
+   the destination's type || lease count || 44-byte leases || signature of the destination's type
+   (DSA-SHA1 sizes for a NULL-certificate destination): accepted, whatever follows, as exactly that
+   value, which serialises to exactly those bytes *)
+Theorem C14_lease_set_built_value_accepted : forall db dest kco ek skd (ls : list bytes) sgb sg y,
+  let rest := ek ++ skd ++ [N.of_nat (length ls)] ++ concat ls ++ sgb in
+  (387 <= length db)%nat ->
+  read_destination_from_leaseset (db ++ rest ++ y) = Ok (dest, rest ++ y) ->
+  length ek = 256%nat -> Model.ExtCrypto.elg_pubkey_ok ek = true ->
+  dest_keycert_opt dest = Ok kco ->
+  0 <= ls_sks kco -> Z.of_nat (length skd) = ls_sks kco ->
+  match kco with
+  | Some kc => construct_signing_public_key kc skd
+  | None => if Model.ExtCrypto.dsa_pubkey_ok skd then Ok skd else Err
+  end = Ok skd ->
+  (length ls <= 16)%nat -> Forall (fun l => length l = LEASE_SIZE) ls ->
+  0 <= ls_ss kco -> Z.of_nat (length sgb) = ls_ss kco ->
+  new_signature_from_bytes sgb (ls_st kco) = Ok sg ->
+  read_lease_set ((db ++ rest) ++ y) = Ok (mkLS dest ek skd (Z.of_nat (length ls)) ls sg) /\
+  lease_set_bytes (mkLS dest ek skd (Z.of_nat (length ls)) ls sg) =
+    (do dbb <- kac_bytes dest; Ok (dbb ++ ek ++ skd ++ [N.of_nat (length ls)] ++ concat ls ++ sig_bytes sg)).
+Proof. exact lease_set_built_accepted. Qed.
+Print Assumptions C14_lease_set_built_value_accepted.
 (* ... and for values that were BUILT, not parsed.  LeaseSet2: any value whose fields fit their
    wire widths (ls2_fits: 32/16-bit header fields, offline block consistent with the flag and of
    the sizes its types dictate, 1..16 keys whose declared length is their length, at most 16
